@@ -223,6 +223,8 @@ pub struct Io {
     pub sink: SinkCfg,
     /// fail the k-th source call (only honoured by Chunky readers)
     pub fail_read_at: Option<usize>,
+    /// ... and every call after it
+    pub fail_read_sticky: bool,
 }
 
 /// Present `input` through `kind`, call `f(reader, sink)`, and report verdict,
@@ -265,6 +267,7 @@ pub fn run_with<E: std::fmt::Debug>(
         ReaderKind::Chunky { pattern, stops } => {
             let mut cr = ChunkyReader::new(input, pattern.clone()).with_stops(stops.clone());
             cr.fail_at = io.fail_read_at;
+            cr.fail_sticky = io.fail_read_sticky;
             let res = f(&mut cr, &mut sink);
             consumed = cr.position();
             source_calls = cr.calls;
